@@ -1,12 +1,176 @@
 import Model.Collocate
 import Proofs.Lemmas.GeoIndex
 
-namespace Colloc
+set_option linter.unusedSectionVars false
 
-theorem unflat_flat (npos l c : Nat) (hc : c < npos) : unflatIndex npos (flatIndex npos l c) = (l, c) := by
+/-!
+Helper lemmas for C04: the spatial search with the cached index (for every object
+state satisfying the invariant `Inv`), the temporal binning, the index bookkeeping.
+-/
+
+namespace Colloc
+open Geo
+
+theorem unflat_flat (npos l c : Nat) (hc : c < npos) :
+    unflatIndex npos (flatIndex npos l c) = (l, c) := by
   unfold unflatIndex flatIndex
   have hn : 0 < npos := by omega
   rw [Nat.mul_comm, Nat.mul_add_div hn, Nat.mul_add_mod, Nat.div_eq_of_lt hc, Nat.mod_eq_of_lt hc]
   simp
+
+theorem flat_unflat (npos k : Nat) :
+    flatIndex npos (unflatIndex npos k).1 (unflatIndex npos k).2 = k := by
+  unfold unflatIndex flatIndex
+  simp only
+  rw [Nat.mul_comm]; exact Nat.div_add_mod k npos
+
+section Spatial
+variable {Pos α : Type} [DecidableEq Pos] [Field α] [LinearOrder α] [IsStrictOrderedRing α]
+
+/-- invariant of the object state: a cached index is a GeoIndex built (with some
+permutation) from the coordinates it remembers -/
+def Inv (st : SState Pos) : Prop :=
+  ∀ ix, st.index = some ix →
+    ∃ σ, σ.Perm (List.range ix.origPoints.length) ∧
+      Index.build .minkowski ix.origPoints (some σ) = .ok ix
+
+theorem inv_init : Inv ({} : SState Pos) := by
+  intro ix h; simp at h
+
+/-- every permutation function draws permutations -/
+def ValidShuf (shuf : Nat → List Pos → List Nat) : Prop :=
+  ∀ k pts, (shuf k pts).Perm (List.range pts.length)
+
+/-- swapping the rows of an answer for (build = p2, query = p1) gives an answer for
+(p1, p2) when the distance is symmetric -/
+theorem querySpec_swap (dist : Pos → Pos → α) (hsym : ∀ a b, dist a b = dist b a)
+    (p1 p2 : List Pos) (r : α) (pairs : List (Nat × Nat)) (ds : List α)
+    (h : QuerySpec .minkowski dist p2 p1 r pairs ds) :
+    QuerySpec .minkowski dist p1 p2 r (swapRows pairs) ds := by
+  obtain ⟨h1, h2, h3⟩ := h
+  refine ⟨?_, ?_, ?_⟩
+  · intro i q
+    simp only [swapRows, List.mem_map, Prod.mk.injEq, Prod.exists]
+    constructor
+    · rintro ⟨a, b, hm, rfl, rfl⟩
+      obtain ⟨x, y, hx, hy, hd⟩ := (h1 a b).mp hm
+      exact ⟨y, x, hy, hx, by simpa [distKm, hsym y x] using hd⟩
+    · rintro ⟨x, y, hx, hy, hd⟩
+      exact ⟨q, i, (h1 q i).mpr ⟨y, x, hy, hx, by simpa [distKm, hsym y x] using hd⟩, rfl, rfl⟩
+  · exact h2.map (fun a b hab => by
+      simp only [Prod.mk.injEq] at hab
+      exact Prod.ext hab.2 hab.1)
+  · unfold swapRows
+    rw [List.forall₂_map_left_iff]
+    refine h3.imp ?_
+    rintro ⟨a, b⟩ d ⟨x, y, hx, hy, hd⟩
+    exact ⟨y, x, hy, hx, by simp [hd, distKm, hsym x y]⟩
+
+theorem querySpec_nil_ds (m : Metric) (dist : Pos → Pos → α) (p1 p2 : List Pos) (r : α) (ds : List α)
+    (h : QuerySpec m dist p1 p2 r [] ds) : ds = [] := by
+  cases h.2.2; rfl
+
+theorem isCached_iff (st : SState Pos) (pts : List Pos) :
+    isCached st pts = true ↔ ∃ ix, st.index = some ix ∧ ix.origPoints = pts := by
+  unfold isCached
+  cases st.index with
+  | none => simp
+  | some ix => simp
+
+theorem build_origPoints (pts : List Pos) (sh : Option (List Nat)) (ix : Index Pos)
+    (h : Index.build .minkowski pts sh = .ok ix) : ix.origPoints = pts := by
+  unfold Index.build at h
+  simp only [show (Metric.minkowski == Metric.unknown) = false from rfl, Bool.false_eq_true,
+    if_false] at h
+  cases sh with
+  | none => cases h; rfl
+  | some σ =>
+    simp only at h
+    split at h
+    · cases h; rfl
+    · cases h
+
+theorem build_ok (pts : List Pos) (σ : List Nat) (hσ : σ.Perm (List.range pts.length)) :
+    Index.build .minkowski pts (some σ) =
+      .ok ⟨.minkowski, some σ, σ.filterMap (pts[·]?), pts⟩ := by
+  have hall : σ.all (· < pts.length) = true := by
+    rw [List.all_eq_true]; intro i hi
+    simpa using List.mem_range.mp (hσ.mem_iff.mp hi)
+  simp [Index.build, hall]
+
+/-- `_build_spatial_index`: succeeds on a non-empty array, keeps the invariant, and the
+index it returns is a GeoIndex of exactly the requested coordinates -/
+theorem buildIndex_spec (shuf : Nat → List Pos → List Nat) (hshuf : ValidShuf shuf)
+    (st : SState Pos) (hinv : Inv st) (bp : List Pos) (hbp : bp ≠ []) :
+    ∃ st2 ix, buildIndex shuf st bp = .ok (st2, ix) ∧ Inv st2 ∧ st2.iwp = st.iwp ∧
+      ∃ σ, σ.Perm (List.range bp.length) ∧ Index.build .minkowski bp (some σ) = .ok ix := by
+  unfold buildIndex
+  by_cases hc : isCached st bp = true
+  · obtain ⟨ix, hix, horig⟩ := (isCached_iff st bp).mp hc
+    obtain ⟨σ, hσ, hb⟩ := hinv ix hix
+    rw [horig] at hσ hb
+    refine ⟨st, ix, by simp [hc, hix], hinv, rfl, σ, hσ, hb⟩
+  · have hc' : isCached st bp = false := by simpa using hc
+    have hne : bp.isEmpty = false := by cases bp <;> simp_all
+    have hb := build_ok bp (shuf st.built bp) (hshuf _ _)
+    let ix0 : Index Pos := ⟨.minkowski, some (shuf st.built bp),
+      (shuf st.built bp).filterMap (bp[·]?), bp⟩
+    refine ⟨{ st with index := some ix0, built := st.built + 1 }, ix0, ?_, ?_, rfl,
+      shuf st.built bp, hshuf _ _, hb⟩
+    · simp [hc', hne, hb, ix0]
+    · intro ix hix
+      simp only [Option.some.injEq] at hix
+      subst hix
+      exact ⟨shuf st.built bp, hshuf _ _, hb⟩
+
+theorem inv_set_iwp (st : SState Pos) (h : Inv st) (b : Bool) : Inv { st with iwp := b } := h
+
+/-- **spatial search, any object state**: for every Collocator state satisfying `Inv`
+(i.e. after any history), every tree obeying the contract, every permutation family and
+every `magnitude_factor`, `spatial_search` succeeds on non-empty arrays, keeps `Inv`, and
+reports exactly the pairs (index into p1, index into p2) within the radius, each once,
+with aligned distances — whichever side it builds the index from, cached or fresh. -/
+theorem spatialSearch_spec (dist : Pos → Pos → α) (hsym : ∀ a b, dist a b = dist b a)
+    (T : TreeFn Pos α) (hT : TreeOK dist T) (shuf : Nat → List Pos → List Nat)
+    (hshuf : ValidShuf shuf) (mf : Nat) (st : SState Pos) (hinv : Inv st)
+    (p1 p2 : List Pos) (h1 : p1 ≠ []) (h2 : p2 ≠ []) (r : α) :
+    ∃ st' pairs ds, spatialSearch T shuf mf st p1 p2 r = (st', .ok (pairs, ds)) ∧ Inv st' ∧
+      QuerySpec .minkowski dist p1 p2 r pairs ds := by
+  unfold spatialSearch
+  have e1 : p1.isEmpty = false := by cases p1 <;> simp_all
+  have e2 : p2.isEmpty = false := by cases p2 <;> simp_all
+  cases hi : chooseBuild st mf p1 p2 with
+  | true =>
+    simp only [if_true]
+    obtain ⟨st2, ix, hb, hinv2, _, σ, hσ, hbuild⟩ :=
+      buildIndex_spec shuf hshuf { st with iwp := true } (inv_set_iwp st hinv true) p1 h1
+    obtain ⟨ix', pairs, ds, hb', hq, hspec⟩ :=
+      query_spec dist T hT .minkowski (by decide) p1 p2 r (some σ) hσ
+    rw [hbuild] at hb'; cases hb'
+    simp only [hb, e2, Bool.false_eq_true, if_false, hq]
+    by_cases he : pairs.isEmpty
+    · have : pairs = [] := by simpa using he
+      subst this
+      have := querySpec_nil_ds _ dist p1 p2 r ds hspec
+      subst this
+      exact ⟨st2, [], [], by simp, hinv2, hspec⟩
+    · exact ⟨st2, pairs, ds, by simp [he], hinv2, hspec⟩
+  | false =>
+    simp only [Bool.false_eq_true, if_false]
+    obtain ⟨st2, ix, hb, hinv2, _, σ, hσ, hbuild⟩ :=
+      buildIndex_spec shuf hshuf { st with iwp := false } (inv_set_iwp st hinv false) p2 h2
+    obtain ⟨ix', pairs, ds, hb', hq, hspec⟩ :=
+      query_spec dist T hT .minkowski (by decide) p2 p1 r (some σ) hσ
+    rw [hbuild] at hb'; cases hb'
+    simp only [hb, e1, Bool.false_eq_true, if_false, hq]
+    by_cases he : pairs.isEmpty
+    · have : pairs = [] := by simpa using he
+      subst this
+      have := querySpec_nil_ds _ dist p2 p1 r ds hspec
+      subst this
+      exact ⟨st2, [], [], by simp, hinv2, by simpa [swapRows] using querySpec_swap dist hsym p1 p2 r [] [] hspec⟩
+    · exact ⟨st2, swapRows pairs, ds, by simp [he], hinv2, querySpec_swap dist hsym p1 p2 r pairs ds hspec⟩
+
+end Spatial
 
 end Colloc
